@@ -92,4 +92,24 @@ func specBE32(b []byte, at int) uint32 {
 //@     invariant forall j in 0..rangeindex+1 :: ebp.Grouping[j] != 0x1c && ebp.Grouping[j] != 0x1d
 //@     decreases len(ebp.Grouping) - rangeindex
 
+// The CableLabs reader is not verified (its grouping-chain loop has no invariant yet); the
+// dispatcher below relies only on this assumed, deliberately weak contract.
+//@ func readCableLabsEbp(data []byte) (ebp *cableLabsEbp, err error)
+//@   trusted
+//@   ensures err == nil ==> ebp != nil
+//@   modifies nothing
+
+func ccOf(e EncoderBoundaryPoint) *comcastEbp {
+	p, _ := e.(*comcastEbp)
+	return p
+}
+
+//@ func ReadEncoderBoundaryPoint(data []byte) (ebp EncoderBoundaryPoint, err error)
+//@   props C12
+//@   requires len(data) > 0 && data[0] == 0xa9 ==> specWFComcast(data)
+//@   ensures len(data) == 0 ==> ebp == nil && err == gots.ErrNoEBPData
+//@   ensures len(data) > 0 && data[0] != 0xa9 && data[0] != 0xdf ==> ebp == nil && err == gots.ErrUnrecognizedEbpType
+//@   ensures len(data) > 0 && data[0] == 0xa9 ==> err == nil && ccOf(ebp) != nil && ccOf(ebp).DataFieldLength == data[1] && ccOf(ebp).DataFlags == data[2]
+//@   modifies nothing
+
 var _ = gots.ErrNoPayload
